@@ -99,6 +99,14 @@ Definition usw_write (maxu : Z) (sclosed : bool) (inp : list N) : Z * sw_err * l
               else (0, SwShortBuffer, [])                         (* "we are not allowed to" split *)
        end.
 
+(* client.RouteUDP (internal/client/piper.go), uplink of the UDP relay around the Stream interface:
+     data := make([]byte, 8192); i, addr, err := localConn.ReadFrom(data); ... stream.Write(data[:i])
+   ReadFrom into a buffer shorter than the datagram keeps what fits and silently discards the rest
+   (Linux recvfrom without MSG_TRUNC).  8192 is a literal in the source; the relay driver measures it. *)
+Definition relay_buf : N := 8192%N.
+Definition route_udp_up (maxu : Z) (d : list N) : Z * sw_err * list (list N) :=
+  usw_write maxu false (firstn (N.to_nat relay_buf) d).
+
 (* ---------------------------------------------------------------------------------- *)
 (* Receive side of an unordered session: Session.streams as an association list.  An entry
    keeps the stream's pipe (the application still holds the *Stream after the table slot
